@@ -1,5 +1,5 @@
 CONSTANTS Mags = {8} Pages <- PagesOne8 Rows = {1} Cids = {1} Nats = {0} Flofs = {1} Progs <- ProgsAll
-          HdrFaults = {} RowFaults <- RowBurst PktFaults <- PktAll TripFaults <- TripAll MaxFaults = 1 MaxPk = 6 FaultFrom = {0}
+          HdrFaults = {} RowFaults <- RowBurst PktFaults <- PktAll TripFaults <- TripAll FlofFaults <- NoFlofFaults MaxFaults = 1 MaxPk = 6 FaultFrom = {0}
 SPECIFICATION GSpec
 VIEW gview
 INVARIANT DumpF
